@@ -1,21 +1,26 @@
 """C12 - maximum-likelihood fits do not lose likelihood and are scale-equivariant.
 
-M: TLC explores the fit life cycle start -> fit(d) -> fit(c*d from defaults) -> re-fit(d from the
+M: TLC explores the fit life cycle [fit of ANOTHER instance with a fixed parameter ->] start -> fit(d) -> fit(c*d from defaults) -> re-fit(d from the
    fitted values) of spec/FitLaws.tla over (family, regular parameter class, n, scale factor,
    start kind, replicate) with an idealised estimator; four mutation configs (estimator returns the
    start values / swaps the shapes / inverts the reciprocal scale / treats a log-scale as a scale)
-   must violate AtLeastGenerating resp. ScaleEquivariant.
+   must violate AtLeastGenerating resp. ScaleEquivariant; a fifth (scipy fit keywords shared through a
+   class-level dict that _fit_mle mutates) must violate HistoryIndependent.
 R: the same module emits every case (Gen_FitLaws_*.cfg) including the user start vector and the
    generating vector mapped by the spec's ScaleMap.
 V: the driver draws own-family data (numpy only), performs the three fits on the real classes,
    measures sum(log dist.pdf(data)) with the object's own pdf and the parameters, and
    spec/Trace_C12.tla judges NoLikelihoodLoss.{fit,scaled,refit}, AtLeastGenerating.{fit,scaled,refit}
    (MomentsMatch for the moment estimator LogNormalNormFit), Admissible, ScaleEquivariant,
-   StartAsSpecified on every record.
+   StartAsSpecified on every record.  History: every worker process runs its cases three times - in the
+   given order, in another seeded order (CaseOrderIndependent: all fitted parameters bit-identical) and
+   each first fit again after a fit of another instance of the family with parameter kfix fixed
+   (FixedFitDoesNotLeak: bit-identical).
 """
 import math
 import multiprocessing
 import os
+import struct
 import warnings
 import zlib
 
@@ -161,6 +166,7 @@ def run_case(arg):
             obj.fit(x)
             p1f = [float(obj.parameters[k]) for k in names]
             p1, fin1 = qpar(p1f)
+            raw = {"p1": list(p1f)}
             ll1 = loglik(obj, x)
             llg = loglik(mk(**dict(zip(names, theta))), x)
             if fam != "VonMises":
@@ -168,7 +174,8 @@ def run_case(arg):
                 o2 = mk()
                 ll0c = loglik(o2, xc)
                 o2.fit(xc)
-                p2, fin2 = qpar(o2.parameters[k] for k in names)
+                raw["p2"] = [float(o2.parameters[k]) for k in names]
+                p2, fin2 = qpar(raw["p2"])
                 ll2 = loglik(o2, xc)
                 llgc = loglik(mk(**dict(zip(names, thetac))), xc)
             else:
@@ -176,7 +183,8 @@ def run_case(arg):
                 p2, fin2, ll0c, ll2, llgc = p1, fin1, ll0, ll1, llg
             o3 = mk(**dict(zip(names, p1f))) if fin1 else mk()
             o3.fit(x)
-            p3, fin3 = qpar(o3.parameters[k] for k in names)
+            raw["p3"] = [float(o3.parameters[k]) for k in names]
+            p3, fin3 = qpar(raw["p3"])
             ll3 = loglik(o3, x)
         except Exception as e:  # noqa
             rec.update(exc=f"{type(e).__name__}: {e}"[:200], fin1=True, fin2=True, fin3=True)
@@ -193,8 +201,70 @@ def run_case(arg):
     mean2, std2 = moments(xc)
     rec.update(p0=p0, p1=p1, p2=p2, p3=p3, fin1=fin1, fin2=fin2, fin3=fin3,
                ll0=qll(ll0), ll1=qll(ll1), llg=qll(llg), ll0c=qll(ll0c), ll2=qll(ll2), llgc=qll(llgc),
-               ll3=qll(ll3), mean1=mean1, std1=std1, mean2=mean2, std2=std2)
+               ll3=qll(ll3), mean1=mean1, std1=std1, mean2=mean2, std2=std2,
+               bitsA=bits(raw["p1"] + raw.get("p2", []) + raw["p3"]), bits1A=bits(raw["p1"]))
     return rec
+
+
+def bits(vals):
+    """exact bit patterns of doubles as 22-bit limbs (TLC integers are 32 bit)"""
+    out = []
+    for v in vals:
+        b = struct.unpack(">Q", struct.pack(">d", float(v)))[0]
+        out += [b >> 44, (b >> 22) & 0x3FFFFF, b & 0x3FFFFF]
+    return out
+
+
+def refit_only(c, seed, with_fixed_first):
+    """the fits of a case again (no likelihoods): all three (pass B), or the first fit preceded by a fit of
+    ANOTHER instance of the same family that has parameter kfix fixed at fixval (pass C)"""
+    vc = _vc()
+    mk, names = _families(vc)[c["fam"]]
+    fl = lambda q: [v / 1e6 for v in q]
+    theta, start = fl(c["theta"]), fl(c["start"])
+    x = draw(c["fam"], theta, c["n"], np.random.default_rng(data_seed(seed, c)))
+    with warnings.catch_warnings():
+        warnings.simplefilter("ignore")
+        if with_fixed_first:
+            other = mk(**{"f_" + names[c["kfix"] - 1]: c["fixval"] / 1e6})
+            other.fit(x)
+        obj = mk() if c["kind"] == "default" else mk(**dict(zip(names, start)))
+        obj.fit(x)
+        p1f = [float(obj.parameters[k]) for k in names]
+        if with_fixed_first:
+            return p1f
+        out = list(p1f)
+        if c["fam"] != "VonMises":
+            o2 = mk()
+            o2.fit((c["num"] / c["den"]) * x)
+            out += [float(o2.parameters[k]) for k in names]
+        o3 = mk(**dict(zip(names, p1f))) if all(math.isfinite(v) for v in p1f) else mk()
+        o3.fit(x)
+        return out + [float(o3.parameters[k]) for k in names]
+
+
+def run_chunk(arg):
+    """one worker process = one history: pass A runs the life cycles of its cases in the given order (and
+    measures the likelihoods), pass B runs all fits again in a different seeded order, pass C runs every first
+    fit again after a fit of another instance of the family with a fixed parameter."""
+    widx, items, seed = arg
+    recs = [run_case((rid, c, seed)) for rid, c in items]
+    rng = np.random.default_rng(seed * 1000 + widx + 12)
+    for with_fixed, field in ((False, "bitsB"), (True, "bits1C")):
+        for j in rng.permutation(len(items)):
+            r, c = recs[j], items[j][1]
+            if r["exc"]:
+                r.setdefault(field, [])
+                continue
+            try:
+                r[field] = bits(refit_only(c, seed, with_fixed))
+            except Exception as e:  # noqa
+                r["exc"] = f"{'history' if with_fixed else 'second order'}: {type(e).__name__}: {e}"[:200]
+                r[field] = []
+    for r in recs:
+        for f in ("bitsA", "bits1A", "bitsB", "bits1C"):
+            r.setdefault(f, [])
+    return recs
 
 
 def case_key(c):
@@ -205,14 +275,17 @@ def case_key(c):
 
 
 def execute(ctx, cases, base=0):
-    args = [(base + i + 1, c, ctx.seed) for i, c in enumerate(cases)]
-    procs = max(1, min(12, (os.cpu_count() or 2) - 2, len(args)))
+    items = [(base + i + 1, c) for i, c in enumerate(cases)]
+    procs = max(1, min(12, (os.cpu_count() or 2) - 2, len(items)))
+    chunks = [(w, items[w::procs], ctx.seed) for w in range(procs)]
     if procs > 1:
+        # fresh forked workers: nothing has been fitted in them before pass A
         with multiprocessing.get_context("fork").Pool(procs) as pool:
-            recs = pool.map(run_case, args, chunksize=1)
+            parts = pool.map(run_chunk, chunks, chunksize=1)
     else:
-        recs = [run_case(a) for a in args]
-    return recs
+        parts = [run_chunk(chunks[0])]
+    byid = {r["id"]: r for part in parts for r in part}
+    return [byid[rid] for rid, _ in items]
 
 
 def judge(ctx, cases, recs):
@@ -222,6 +295,10 @@ def judge(ctx, cases, recs):
         ctx.case(case_key(c), nontrivial)
         for clause in failing.get(r["id"], []):
             detail = {k: r.get(k) for k in ("exc", "p0", "p1", "p2", "p3", "ll0", "llg", "ll1", "ll3", "ll0c", "llgc", "ll2")}
+            if clause in ("CaseOrderIndependent", "FixedFitDoesNotLeak"):
+                detail = {"kfix": c["kfix"], "fixval": c["fixval"], "p1": r.get("p1"),
+                          "first_fit_bits_clean": r.get("bits1A"), "first_fit_bits_after_fixed_instance": r.get("bits1C"),
+                          "same_in_other_order": r.get("bitsA") == r.get("bitsB")}
             ctx.violation(clause, case_key(c), f"record={detail} data_seed={data_seed(ctx.seed, c)}", replay=c)
     return failing
 
@@ -257,6 +334,8 @@ def selftest(ctx, cases, recs, failing):
     m(sc, "ScaleEquivariant", p2=[sc["p2"][1], sc["p2"][0], sc["p2"][2]], ll2=sc["ll2"] - 70)
     m(sc, "StartAsSpecified", p0=[v + 5 for v in sc["p0"]])
     m(sc, "UnexpectedException", exc="ValueError: x")
+    m(sc, "CaseOrderIndependent", bitsB=sc["bitsB"][:-1] + [sc["bitsB"][-1] ^ 1])        # last bit of one estimate
+    m(sc, "FixedFitDoesNotLeak", bits1C=bits([1.0]) + sc["bits1C"][3:])                  # a stale constant
     m(ln, "MomentsMatch", p1=[ln["p1"][0], ln["p1"][1] + 40])
     res = ctx.validate("Trace_C12", "Trace_C12.cfg", [r for _, r in muts])
     for clause, r in muts:
@@ -271,7 +350,8 @@ def run(ctx):
                 "[0.05,20] x start kind {default,user} x replicate (quick 1, thorough 3); data drawn with numpy from "
                 "the class (seeded by VERIF_SEED, family, class, n, replicate). distinct = distinct case key; "
                 "non-trivial = the first fit moved the parameters away from the start values and the generating "
-                "log-likelihood is finite")
+                "log-likelihood is finite. Every case is run three times in its worker process (given order, "
+                "another seeded order, after a fixed-parameter instance of the same family)")
     ctx.trusted = ["TLC 1.8 evaluating spec/FitLawsOps.tla clause operators",
                    "numpy.random.Generator samplers used to draw own-family data (harness/c12.py draw())",
                    "sum(log dist.pdf(data)) evaluated with the object's own pdf (pdf fidelity is C05's subject)",
@@ -283,11 +363,12 @@ def run(ctx):
                        "von Mises is excluded from scaling",
                        "optimality is sampled: a counter-example refutes, absence of one does not prove global optimality"]
     ctx.model_check("FitLaws", ctx.pick("MC_FitLaws_quick.cfg", "MC_FitLaws_thorough.cfg"),
-                    must_cover=("FitData", "FitScaled", "ReFit"), workers=4)
+                    must_cover=("FitOther", "FitData", "FitScaled", "ReFit"), workers=4)
     ctx.model_check("FitLaws", "MC_FitLaws_mut_start.cfg", expect_violation="AtLeastGenerating", workers=2)
     ctx.model_check("FitLaws", "MC_FitLaws_mut_swap.cfg", expect_violation="AtLeastGenerating", workers=2)
     ctx.model_check("FitLaws", "MC_FitLaws_mut_recip.cfg", expect_violation="ScaleEquivariant", workers=2)
     ctx.model_check("FitLaws", "MC_FitLaws_mut_log.cfg", expect_violation="ScaleEquivariant", workers=2)
+    ctx.model_check("FitLaws", "MC_FitLaws_mut_shared.cfg", expect_violation="HistoryIndependent", workers=2)
     cases = ctx.generate("FitLaws", ctx.pick("Gen_FitLaws_quick.cfg", "Gen_FitLaws_thorough.cfg"))
     cases.sort(key=case_key)
     _vc()
